@@ -87,6 +87,12 @@ def gen_template(rng):
     if not uniform:
         classes.add("non-uniform-properties")
     if rng.random() < 0.15:
+        # one property that is a list in one resource and a map / bool / null in its sibling (`[sg-1, sg-2]` next to `{Ref: SgList}`)
+        t = types[0]
+        res["MixA"] = {"Type": t, "Properties": {"MixedP": rng.choice([["sg-1", "sg-2"], [1, 2, 3], ["only"]])}}
+        res["MixB"] = {"Type": t, "Properties": {"MixedP": rng.choice([{"Ref": "SgList"}, True, None, {"Fn::GetAtt": ["a", "b"]}])}}
+        classes.add("list-next-to-map")
+    if rng.random() < 0.15:
         # a fleet: many resources of one type whose values for one property are all different (a long IN list)
         t = types[0]
         n_ = rng.randint(7, 19)
@@ -258,7 +264,13 @@ def attribute(report, tpl):
                     elif isinstance(val, int):
                         kinds.add("int")
                     elif isinstance(val, list):
-                        kinds.add("list-valued-property-mixed-with-other-values")
+                        to_ = chk[form].get("to")
+                        tv_ = (to_[0].get("value") if isinstance(to_, list) and to_ else (to_ or {}).get("value")) if to_ else None
+                        if isinstance(tv_, list) and tv_ and isinstance(tv_[0], list):
+                            # the candidates start with a list: `IN` then compares whole lists - a list-valued property next to map / bool / null values
+                            kinds.add("list-valued-property:candidates-start-with-a-list")
+                        else:
+                            kinds.add("list-valued-property-mixed-with-other-values")
                     elif isinstance(val, dict):
                         kinds.add("map")
         else:
